@@ -417,7 +417,10 @@ def configs(tier):
         out.append(([("foreign", "a", (U1,)), ("svc", "a", p0)], 1))
     # three tasks
     for ps in itertools.product(programs([U1, K1], maxlen3), repeat=3):
-        out.append(([("svc", "a", ps[0]), ("svc", "a", ps[1]), ("svc", "a", ps[2])], 0 if tier == "quick" else 1))
+        # thorough: one deviation where every program has one operation, none with the two-operation programs
+        # (1.8 million further executions otherwise: more than the four-hour budget of a background run)
+        d3 = 1 if tier == "thorough" and max(len(p) for p in ps) == 1 else 0
+        out.append(([("svc", "a", ps[0]), ("svc", "a", ps[1]), ("svc", "a", ps[2])], d3))
     # an owner plus two claimers released in the same instant (deviations on three tasks)
     for p1, p2 in itertools.product([(U1,), (K1,)], repeat=2):
         out.append(([("svc", "a", (U1,)), ("svc", "a", p1), ("svc", "a", p2)], 1 if tier == "quick" else 2))
